@@ -18,6 +18,9 @@ PROFILES = {
     # w: history op weights; p_new: creation density; idvals: identity values drawn
     "structs": dict(w=dict(set=42, get=30, gets=16, entries=5, synth=4, setcell=3), p_dur=0.2, p_cell=0.08,
                     idvals=[0, 0, 1, 1, 2], p_spec=0.25, p_cond=0.55, hashmod=[2, 2, 2, 0]),
+    # input durabilities move (HIGH -> LOW with the same value, then a LOW write of a new value)
+    "durstructs": dict(w=dict(set=50, get=30, gets=14, entries=2, synth=4), p_dur=0.35, p_idur=0.6, p_cell=0.0,
+                       idvals=[0, 1, 1, 2], p_spec=0.1, p_cond=0.3, hashmod=[2, 0], p_samelower=0.3),
     "churn":   dict(w=dict(toggle=45, set=10, get=25, gets=12, entries=6, synth=2), p_dur=0.05, p_cell=0.0,
                     idvals=[0, 1, 0, 1, 2], p_spec=0.15, p_cond=0.9, hashmod=[2, 2, 0]),
     "specify": dict(w=dict(set=40, get=22, gets=28, entries=2, synth=6, setcell=2), p_dur=0.3, p_cell=0.05,
@@ -185,7 +188,9 @@ class Gen:
                     continue
                 nodes.append(["node", fam, k, self.node_body(fam, k, ctx)])
         ival = [[i, f, r.choice([0, 1, 2, 3])] for i in range(ni) for f in range(3)]
-        idur = [[i, f, r.choice([0, 0, 1, 2])] for i in range(ni) for f in range(3) if r.random() < p["p_dur"]]
+        idur = [[i, f, r.choice([0, 1, 2, 2])] for i in range(ni) for f in range(3)
+                if r.random() < p.get("p_idur", p["p_dur"])]
+        durs = {(i, f): d for i, f, d in idur}
         nops = r.randint(10, 28) if self.size == "quick" else r.randint(20, 60)
         hist = []
         w = p["w"]
@@ -211,10 +216,16 @@ class Gen:
                 else:
                     i, f = r.randrange(ni), r.randrange(3)
                     v = r.choice([0, 1, 2, 3])
+                if p.get("p_samelower") and durs.get((i, f), 0) > 0 and r.random() < p["p_samelower"]:
+                    v = cur.get((i, f), 0)                      # same value, lower durability
+                    op = ["set", i, f, v, r.randrange(durs[(i, f)])]
+                else:
+                    op = ["set", i, f, v]
+                    if r.random() < p["p_dur"]:
+                        op.append(r.choice([0, 1, 2]))
                 cur[(i, f)] = v
-                op = ["set", i, f, v]
-                if r.random() < p["p_dur"]:
-                    op.append(r.choice([0, 1, 2]))
+                if len(op) > 4:
+                    durs[(i, f)] = op[4]
                 hist.append(op)
                 if p.get("permute") or k == "toggle":
                     rs = [reads() for _ in range(r.randint(1, 3))]
